@@ -1265,6 +1265,17 @@ pub fn avg_regions(k: usize) -> Vec<(String, u32, u32, String)> {
     // regions whose sizes are powers of two so that every quotient is exact at 3 decimals
     match k {
         0 => vec![(s("chr1"), 0, 8, s("r0"))],
+        // 41 rows laid out for 40 threads: rows of 65 and 64 bytes by turns, so that every probe
+        // of the chunker (chunk size 64) lands on the last byte of a row, the 40 chunks are as
+        // short as they can be, and the 16 bytes behind them hold one more row (a 41st chunk)
+        9 => {
+            let mut v = vec![];
+            for i in 0..40u32 {
+                v.push((s("chr1"), 0, if i % 2 == 0 { 16 } else { 8 }, format!("{:_<24}", format!("k{}", i))));
+            }
+            v.push((s("chr1"), 0, 8, s("")));
+            v
+        }
         // (with empty regions -- insertion points -- inside a value, on an edge and in a gap)
         1 => vec![(s("chr1"), 0, 8, s("a")), (s("chr1"), 2, 2, s("ins_in_value")), (s("chr1"), 4, 20, s("b")), (s("chr1"), 4, 4, s("ins_on_edge")), (s("chr2"), 0, 8, s("c")), (s("chr1"), 10, 10, s("ins_in_gap"))],
         // names with blanks inside and an empty name field: columns are separated by TAB only
@@ -1334,6 +1345,7 @@ pub fn avg_tool_cases(quick: bool) -> Vec<AvgTool> {
             v.push(AvgTool { file: 0, regions: 8, namecol: namecol.map(s), min_max: false, final_newline });
         }
     }
+    v.push(AvgTool { file: 0, regions: 9, namecol: None, min_max: false, final_newline: true });
     v.push(AvgTool { file: 0, regions: 7, namecol: None, min_max: true, final_newline: true });
     v.push(AvgTool { file: 0, regions: 7, namecol: Some(s("interval")), min_max: false, final_newline: false });
     for file in 0..2 {
@@ -1422,7 +1434,14 @@ pub fn c17_tool(t: &AvgTool, out: &mut Outcome) {
         want_rows.push(row);
     }
     let mut first: Option<String> = None;
-    for threads in 1..=16usize {
+    let thread_counts: Vec<usize> = if t.regions == 9 { vec![1, 39, 40, 41, 20] } else { (1..=16).collect() };
+    if t.regions == 9 {
+        out.count("tool_average_runs_with_more_chunks_than_threads", 1);
+        if bed.len() != 40 * 64 + 36 {
+            out.fail("harness_panic", &[], format!("the 40-thread layout has {} bytes", bed.len()));
+        }
+    }
+    for threads in thread_counts {
         let mut argv = vec![s("bigwigaverageoverbed"), s("in.bw"), s("regions.bed"), format!("out{}.txt", threads), s("-t"), threads.to_string()];
         if let Some(n) = &t.namecol {
             argv.extend([s("-n"), n.clone()]);
@@ -1744,7 +1763,7 @@ pub struct RefuseTool {
 
 pub fn refuse_tool_cases(quick: bool) -> Vec<RefuseTool> {
     let mut v = vec![];
-    let whats = ["starts_out_of_order", "overlap", "start_after_end", "beyond_chrom", "unknown_chrom", "chrom_order", "chrom_repeated", "missing_end", "non_numeric_start", "bad_value", "space_separated", "empty_input", "valid", "missing_end_first", "non_numeric_start_first", "space_separated_first", "blank_first", "missing_end_last", "non_numeric_start_last"];
+    let whats = ["starts_out_of_order", "overlap", "start_after_end", "beyond_chrom", "unknown_chrom", "chrom_order", "chrom_repeated", "missing_end", "non_numeric_start", "bad_value", "space_separated", "empty_input", "valid", "missing_end_first", "non_numeric_start_first", "space_separated_first", "blank_first", "missing_end_last", "non_numeric_start_last", "chrom_order_late", "coordinate_beyond_u32", "coordinate_far_beyond_u32"];
     for bed in [false, true] {
         for what in whats {
             if bed && (what == "overlap" || what == "bad_value") {
@@ -1774,6 +1793,10 @@ pub fn refuse_tool_cases(quick: bool) -> Vec<RefuseTool> {
     for bed in [false, true] {
         for what in ["missing_end_first", "non_numeric_start_first", "space_separated_first", "blank_first", "missing_end", "valid"] {
             v.push(RefuseTool { bed, what: s(what), threads: 2, parallel: s("no"), single_pass: true, stdin: true });
+        }
+        // nothing at all on standard input
+        for threads in [1usize, 4] {
+            v.push(RefuseTool { bed, what: s("empty_input"), threads, parallel: s("auto"), single_pass: true, stdin: true });
         }
     }
     // bigwigmerge: a chromosome with different sizes in two inputs cannot be merged
@@ -1973,6 +1996,22 @@ fn refuse_tool_run(t: &RefuseTool, out: &mut Outcome, judge_leftover: bool) {
             let r = rows.remove(2);
             rows.insert(5, r);
         }
+        // eight chromosomes, the only disorder between the seventh and the eighth
+        "chrom_order_late" => {
+            rows.clear();
+            for c in ["chrA", "chrB", "chrC", "chrD", "chrE", "chrF", "chrH", "chrG"] {
+                for (a, b) in [(10, 20), (30, 40), (50, 60)] {
+                    rows.push((s(c), a, b));
+                }
+            }
+        }
+        // coordinates that no 32-bit field holds (on a chromosome declared as long as one can be)
+        "coordinate_beyond_u32" => {
+            rows.push((s("chrZ"), 5_000_000_000, 5_000_000_010));
+        }
+        "coordinate_far_beyond_u32" => {
+            rows.push((s("chrZ"), 10, 99_999_999_999));
+        }
         "missing_end" => raw = Some((4, s("chrB\t30"))),
         "non_numeric_start" => raw = Some((4, s("chrB\tx30\t40\t1"))),
         "bad_value" => raw = Some((4, s("chrB\t30\t40\tabc"))),
@@ -2009,7 +2048,7 @@ fn refuse_tool_run(t: &RefuseTool, out: &mut Outcome, judge_leftover: bool) {
         text.push('\n');
     }
     std::fs::write(dir.join("in.txt"), &text).unwrap();
-    std::fs::write(dir.join("sizes"), "chrA\t100\nchrB\t100\nchrC\t100\n").unwrap();
+    std::fs::write(dir.join("sizes"), "chrA\t100\nchrB\t100\nchrC\t100\nchrD\t100\nchrE\t100\nchrF\t100\nchrG\t100\nchrH\t100\nchrZ\t4294967295\n").unwrap();
     let mut argv = vec![if t.bed { s("bedtobigbed") } else { s("bedgraphtobigwig") }, if t.stdin { s("-") } else { s("in.txt") }, s("sizes"), s("out.bb"), s("-t"), t.threads.to_string(), s("-p"), t.parallel.clone()];
     if t.single_pass && !t.stdin {
         argv.push(s("--single-pass"));
